@@ -86,17 +86,121 @@ fn main() {
         println!("selftest ok");
         return;
     }
+    if id == "gen-corpus" {
+        // vcheck gen-corpus --verif-dir DIR : writes DIR/corpus/<target>/seed-*
+        for (target, seeds) in [
+            ("decoders", vharness::fuzzsupport::decoders_seeds()),
+            ("login_response", vharness::fuzzsupport::login_response_seeds()),
+        ] {
+            let dir = cfg.verif_dir.join("corpus").join(target);
+            std::fs::create_dir_all(&dir).expect("create corpus dir");
+            for (i, sd) in seeds.iter().enumerate() {
+                std::fs::write(dir.join(format!("seed-{i:04}")), sd).expect("write seed");
+            }
+            println!("{target}: {} seeds", seeds.len());
+        }
+        return;
+    }
+    if id == "fuzz-replay" {
+        // vcheck fuzz-replay --suite <target> --replay <file-or-dir> [--scale 1 = strict: any tag counts]
+        // env VERIF_FUZZ_PROPERTY=<Cxx>: only failures tagged with that property (panics: C12) count
+        let target = cfg.suite_filter.clone().unwrap_or_else(|| usage());
+        let path = replay.clone().unwrap_or_else(|| usage());
+        let want = std::env::var("VERIF_FUZZ_PROPERTY").ok();
+        let mut files: Vec<std::path::PathBuf> = Vec::new();
+        let p = std::path::PathBuf::from(&path);
+        if p.is_dir() {
+            for e in std::fs::read_dir(&p).expect("read dir").flatten() {
+                if e.path().is_file() {
+                    files.push(e.path());
+                }
+            }
+            files.sort();
+        } else {
+            files.push(p);
+        }
+        let mut bad = 0;
+        let mut ok = 0;
+        for f in &files {
+            let Ok(data) = std::fs::read(f) else { continue };
+            let r = guarded(|| vharness::fuzzsupport::run_target(&target, &data));
+            let (tag, msg) = match r {
+                Ok(Ok(())) => {
+                    ok += 1;
+                    continue;
+                }
+                Ok(Err(m)) => (m.split_whitespace().next().unwrap_or("").to_string(), m),
+                Err(p) if p.contains("HARNESS-BUG") => {
+                    println!("INCONCLUSIVE fuzz replay: {p}");
+                    std::process::exit(2);
+                }
+                Err(p) => ("C12".to_string(), format!("C12 panic: {p}")),
+            };
+            if want.as_deref().map(|w| w == tag).unwrap_or(true) {
+                bad += 1;
+                eprintln!("[{tag}] fuzz input {} fails: {}", f.display(), &msg[..msg.len().min(400)]);
+                println!("VIOLATION property={tag} replay={}", f.display());
+            } else {
+                eprintln!("note: fuzz input {} trips {tag} (not the property under check): {}", f.display(), &msg[..msg.len().min(200)]);
+            }
+        }
+        println!("FUZZ-REPLAY target={target} files={} ok={ok} violations={bad}", files.len());
+        std::process::exit(if bad > 0 { 1 } else { 0 });
+    }
     let reg = vharness::props::registry();
     let Some((pid, run, replay_fn)) = reg.into_iter().find(|(p, _, _)| *p == id) else {
         eprintln!("unknown property {id}");
         std::process::exit(2);
     };
     if let Some(file) = replay {
-        let body: serde_json::Value = match std::fs::read(&file).ok().and_then(|b| serde_json::from_slice(&b).ok()) {
-            Some(v) => v,
-            None => {
+        let raw = match std::fs::read(&file) {
+            Ok(b) => b,
+            Err(_) => {
                 println!("INCONCLUSIVE cannot read replay file {file}");
                 std::process::exit(2);
+            }
+        };
+        let body: serde_json::Value = match serde_json::from_slice::<serde_json::Value>(&raw) {
+            Ok(v) if v.get("case").is_some() => v,
+            _ => {
+                // not a case file: a raw fuzz input (libFuzzer artifact or corpus file)
+                let target = match pid {
+                    "C04" => "login_response",
+                    "C10" | "C11" | "C12" | "C13" => "decoders",
+                    _ => {
+                        println!("INCONCLUSIVE {file} is not a replay case of {pid}");
+                        std::process::exit(2);
+                    }
+                };
+                match guarded(|| vharness::fuzzsupport::run_target(target, &raw)) {
+                    Ok(Ok(())) => {
+                        println!("REPLAY-PASS property={pid} replay={file}");
+                        std::process::exit(0);
+                    }
+                    Ok(Err(m)) => {
+                        let tag = m.split_whitespace().next().unwrap_or("").to_string();
+                        eprintln!("[{tag}] fuzz input fails: {}", &m[..m.len().min(500)]);
+                        if tag == pid {
+                            println!("VIOLATION property={pid} replay={file}");
+                            std::process::exit(1);
+                        }
+                        println!("REPLAY-PASS property={pid} replay={file} (input trips {tag}, not {pid})");
+                        std::process::exit(0);
+                    }
+                    Err(p) if p.contains("HARNESS-BUG") => {
+                        println!("INCONCLUSIVE {p}");
+                        std::process::exit(2);
+                    }
+                    Err(p) => {
+                        eprintln!("[C12] fuzz input panics: {p}");
+                        if pid == "C12" {
+                            println!("VIOLATION property=C12 replay={file}");
+                            std::process::exit(1);
+                        }
+                        println!("REPLAY-PASS property={pid} replay={file} (input panics: C12)");
+                        std::process::exit(0);
+                    }
+                }
             }
         };
         let suite_name = body.get("suite").and_then(|s| s.as_str()).unwrap_or("");
